@@ -10,7 +10,7 @@ def c45Show : FsOutcome → String
   | .invalid => "err Invalid"
   | .os ps => "os " ++ " ".intercalate (ps.map hexOfBytes)
 
-def c45Root : Bytes := [36]
+def c45Root : Bytes := [36, 47]  -- "$/": the harness uses Dir(tmp + "/"), an unclean spelling
 
 def c45Step (_ : Unit) (line : String) : Unit × String :=
   let out : String :=
